@@ -7,8 +7,10 @@
 //!   thread can invoke a waker: in-memory store, in-process channels) this is an exact quiescent
 //!   state and is reported immediately. With `external == true` (SQLite worker threads) the state
 //!   is observed twice, `settle` apart, and reported only if no waker fired and no progress counter
-//!   moved in between *and* both unfinished sides are blocked on the transport; otherwise the
-//!   driver keeps waiting until the wall-clock watchdog, whose firing is inconclusive.
+//!   moved in between, no store call is in flight *and* every unfinished side is blocked on the
+//!   transport (with no store call in flight nothing outside this thread can wake a side, so the
+//!   verdict does not depend on how long the machine takes to schedule a database thread);
+//!   otherwise the driver keeps waiting until the wall-clock watchdog, whose firing is inconclusive.
 //! * Spin: a `poll` that never returns cannot be observed from the polling thread; a monitor
 //!   thread (see `SpinMonitor`) samples the thread's *CPU time* while one and the same poll call is
 //!   in progress and no transport/store call is made.
@@ -24,6 +26,15 @@ use std::time::{Duration, Instant};
 use vh_common::{Rng, Value, json};
 
 use crate::chan::{BLOCKED_IN_RECV, BLOCKED_IN_SEND, IDLE, Wire, state_name};
+
+/// Store activity of both sides of a pair: total calls made (a progress counter) and calls whose
+/// future has not resolved yet (a side waiting for the store is not blocked on the transport, and
+/// a store worker thread may still wake it).
+#[derive(Debug, Default)]
+pub struct StoreActivity {
+    pub calls: AtomicU64,
+    pub in_flight: AtomicU64,
+}
 
 struct Flag {
     woken: AtomicBool,
@@ -110,14 +121,14 @@ impl DriveCfg {
     }
 }
 
-fn snap(wire: &Wire, done: [bool; 2], extra: &AtomicU64) -> Snap {
+fn snap(wire: &Wire, done: [bool; 2], extra: &StoreActivity) -> Snap {
     let side = |i: usize| SideSnap {
         finished: done[i],
         state: wire.state[i].load(SeqCst),
         out_occupancy: wire.occupancy(i),
         in_occupancy: wire.occupancy(1 - i),
     };
-    Snap { sides: [side(0), side(1)], progress: wire.progress(), extra_progress: extra.load(SeqCst) }
+    Snap { sides: [side(0), side(1)], progress: wire.progress(), extra_progress: extra.calls.load(SeqCst) }
 }
 
 /// Are all unfinished sides blocked on the transport in a way that only the other side could
@@ -136,7 +147,7 @@ pub fn drive<FA, FB>(
     mut fa: Pin<&mut FA>,
     mut fb: Pin<&mut FB>,
     wire: &Arc<Wire>,
-    extra_progress: &Arc<AtomicU64>,
+    extra_progress: &Arc<StoreActivity>,
     rng: &mut Rng,
     cfg: &DriveCfg,
     slot: &PollSlot,
@@ -155,7 +166,8 @@ where
     let mut out_b = None;
     let mut polls = [0u64; 2];
     let started = Instant::now();
-    slot.set_io(wire, extra_progress);
+    // Cleared on drop, also when the code under test panics inside a poll.
+    let _io = slot.set_io(wire, extra_progress);
 
     let end = loop {
         let mut ran = false;
@@ -168,7 +180,7 @@ where
             ran = true;
             polls[i] += 1;
             let mut cx = Context::from_waker(&wakers[i]);
-            slot.enter();
+            let _in_poll = slot.enter();
             if i == 0 {
                 if let Poll::Ready(x) = fa.as_mut().poll(&mut cx) {
                     out_a = Some(x);
@@ -176,7 +188,6 @@ where
             } else if let Poll::Ready(x) = fb.as_mut().poll(&mut cx) {
                 out_b = Some(x);
             }
-            slot.leave();
         }
         let done = [out_a.is_some(), out_b.is_some()];
         if done[0] && done[1] {
@@ -203,14 +214,17 @@ where
             continue;
         }
         let s2 = snap(wire, done, extra_progress);
-        if s2 == s1 && transport_blocked(&s2) && !flags.iter().any(|f| f.woken.load(SeqCst)) {
+        if s2 == s1
+            && extra_progress.in_flight.load(SeqCst) == 0
+            && transport_blocked(&s2)
+            && !flags.iter().any(|f| f.woken.load(SeqCst))
+        {
             break End::Stalled { snap: s2, exact: false };
         }
         if started.elapsed() > cfg.watchdog {
             break End::Watchdog { snap: s2 };
         }
     };
-    slot.clear_io();
     Outcome {
         a: out_a,
         b: out_b,
@@ -257,7 +271,7 @@ pub struct PollSlot {
     /// Odd while inside a poll; changes at every enter/leave.
     seq: AtomicU64,
     thread: Mutex<Option<libc::pthread_t>>,
-    io: Mutex<Option<(Arc<Wire>, Arc<AtomicU64>)>>,
+    io: Mutex<Option<(Arc<Wire>, Arc<StoreActivity>)>>,
     /// Free-form description of the case in progress (witness if it spins).
     pub what: Mutex<Value>,
 }
@@ -270,21 +284,17 @@ impl PollSlot {
     pub fn bind_current_thread(&self) {
         *self.thread.lock().unwrap() = Some(unsafe { libc::pthread_self() });
     }
-    fn enter(&self) {
+    fn enter(&self) -> InPoll<'_> {
         self.seq.fetch_add(1, SeqCst);
+        InPoll(self)
     }
-    fn leave(&self) {
-        self.seq.fetch_add(1, SeqCst);
-    }
-    fn set_io(&self, wire: &Arc<Wire>, extra: &Arc<AtomicU64>) {
+    fn set_io(&self, wire: &Arc<Wire>, extra: &Arc<StoreActivity>) -> IoSet<'_> {
         *self.io.lock().unwrap() = Some((wire.clone(), extra.clone()));
-    }
-    fn clear_io(&self) {
-        *self.io.lock().unwrap() = None;
+        IoSet(self)
     }
     fn io_count(&self) -> Option<u64> {
         let g = self.io.lock().unwrap();
-        g.as_ref().map(|(w, e)| w.io_calls.load(SeqCst) + e.load(SeqCst))
+        g.as_ref().map(|(w, e)| w.io_calls.load(SeqCst) + e.calls.load(SeqCst))
     }
     fn cpu_ns(&self) -> Option<u64> {
         let t = (*self.thread.lock().unwrap())?;
@@ -299,6 +309,24 @@ impl PollSlot {
             }
             Some(ts.tv_sec as u64 * 1_000_000_000 + ts.tv_nsec as u64)
         }
+    }
+}
+
+/// Marks the span of one `poll` call; the slot's sequence number is odd exactly while one exists
+/// (also across an unwinding panic of the code under test).
+struct InPoll<'a>(&'a PollSlot);
+
+impl Drop for InPoll<'_> {
+    fn drop(&mut self) {
+        self.0.seq.fetch_add(1, SeqCst);
+    }
+}
+
+struct IoSet<'a>(&'a PollSlot);
+
+impl Drop for IoSet<'_> {
+    fn drop(&mut self) {
+        *self.0.io.lock().unwrap_or_else(|e| e.into_inner()) = None;
     }
 }
 
